@@ -36,7 +36,7 @@ def names(path=None):
 
 
 PRIO = {"host": 9, "srflx": 7, "prflx": 8, "relay": 5}
-ALL_ADDRS = ["a1", "a2", "b1", "b2", "n1", "x9"]
+ALL_ADDRS = ["a1", "a2", "b1", "b2", "n1", "n2", "x9"]
 
 
 def q(s):
